@@ -107,8 +107,16 @@ impl<T> DoubleEndedIterator for IntoIter<T> {
 
 impl<T> Drop for IntoIter<T> {
   fn drop(&mut self) {
-    for v in self {
-      core::mem::drop(v);
+    if self.v.is_default() {
+      return;
+    }
+
+    // forget the remaining elements before running their destructors: if one of them panics
+    // the embedded vector must not see (and drop again) slots that were already handled
+    let len = self.v.len();
+    unsafe {
+      self.v.set_len(0);
+      core::ptr::drop_in_place(core::ptr::slice_from_raw_parts_mut(self.pos as *mut T, len));
     }
   }
 }
